@@ -39,6 +39,8 @@ def enc(a, scale, offset, fill, dtype):
 
 
 def run(res, tier, seed):
+    import l1b as _l1b
+    _l1b.AUTO_NOISE = 7919 * seed + 13      # random bytes in every record field the spec writer does not set
     rng = common.rng_for(seed, PROP)
     coq_sel, coq_enc = [], []
     plans = [("gac_klm", "noaa16", datetime.datetime(2003, 5, 6, 23, 59, 40)), ("gac_pod", "noaa14", datetime.datetime(2001, 5, 6, 11, 0, 0)),
